@@ -267,6 +267,44 @@ std::string exec(const std::vector<std::string> &w) {
     }
     return "ok " + acc + " ret=" + ret + " next=" + pend_name(static_cast<int>(t)) + " " + state_text();
   }
+  if (w[0] == "deep" && w.size() == 2) {
+    // Deep nesting on the real header, free running (no scheduling points are
+    // taken: these threads are not workers of the scheduler).  Thread A nests n
+    // deep and unlocks in three phases; the main thread is the other thread B.
+    const std::uint64_t n = vh::to_u64(w[1]);
+    if (n < 2 || n > 1000000) throw BadOp();
+    primitiv::RecursiveSpinlock l;
+    std::mutex m;
+    std::condition_variable cv;
+    int phase = 0;   // advanced alternately by A and by the main thread
+    auto wait_phase = [&](int p) { std::unique_lock<std::mutex> lk(m); cv.wait(lk, [&] { return phase >= p; }); };
+    auto set_phase = [&](int p) { std::lock_guard<std::mutex> lk(m); phase = p; cv.notify_all(); };
+    std::thread a([&] {
+      for (std::uint64_t i = 0; i < n; ++i) l.lock();
+      l.unlock();
+      set_phase(1); wait_phase(2);
+      for (std::uint64_t i = 0; i + 2 < n; ++i) l.unlock();
+      set_phase(3); wait_phase(4);
+      l.unlock();
+      set_phase(5);
+    });
+    std::ostringstream os;
+    wait_phase(1);
+    bool r = l.try_lock();
+    os << "ok try1=" << (r ? "true" : "false") << " count1=" << l.lock_count_;
+    if (r) l.unlock();
+    set_phase(2); wait_phase(3);
+    r = l.try_lock();
+    os << " try2=" << (r ? "true" : "false") << " count2=" << l.lock_count_;
+    if (r) l.unlock();
+    set_phase(4); wait_phase(5);
+    a.join();
+    r = l.try_lock();
+    os << " try3=" << (r ? "true" : "false");
+    if (r) l.unlock();
+    os << " flag=" << rd_flag(l.ready_) << " count3=" << l.lock_count_;
+    return os.str();
+  }
   if (w[0] == "ident" && w.size() == 3) {
     if (w[2].size() > 19) throw BadOp();
     const std::uint64_t x = vh::to_u64(w[2]);
